@@ -99,6 +99,25 @@ pub open spec fn no_confed(b: Seq<u8>) -> bool
     b.len() < 2 || seg_size(b) > b.len() || (b[0] != 3 && b[0] != 4 && no_confed(b.subrange(seg_size(b), b.len() as int)))
 }
 
+/// some AS number among the first n of the segment at the start of b does not fit two octets
+pub open spec fn seg_any_wide(b: Seq<u8>, n: int) -> bool
+    decreases n,
+{
+    n > 0 && (seg_any_wide(b, n - 1) || be32_at(b, 2 + 4 * (n - 1)) > 65535)
+}
+/// some AS number of the path does not fit two octets (RFC 6793: then an OLD speaker also needs AS4_PATH)
+pub open spec fn aspath_any_wide(b: Seq<u8>) -> bool
+    decreases b.len(),
+{
+    !(b.len() < 2 || seg_size(b) > b.len()) && (seg_any_wide(b, b[1] as int) || aspath_any_wide(b.subrange(seg_size(b), b.len() as int)))
+}
+/// `u32::from_be_bytes(buf[start..start + 4].try_into().unwrap())`
+#[verifier::external_body]
+pub fn vx_be_u32_at(buf: &Vec<u8>, start: usize) -> (r: u32)
+    requires start + 4 <= buf@.len(),
+    ensures r == rd_be32(buf@, start as int),
+{ u32::from_be_bytes(buf[start..start + 4].try_into().unwrap()) }
+
 // ---- what the byte-level edits mean on the segment structure (lemmas over the contracts of as_path_prepend,
 // as_path_prepend_confed and as_path_strip_confed: "prepended exactly once", "after removing confederation segments")
 pub proof fn lemma_be32_roundtrip(v: u32)
